@@ -111,6 +111,9 @@ type gbPrinter struct {
 	// stems: parameter names by type of another generator (gpars.go: inside package pars the types are
 	// unqualified); consulted before gbParamStem; nil for the reader
 	stems map[string]string
+	// exprExt: expression forms of another generator that shares the normal form (cmdfacts.go: the untyped
+	// composite literal inside `[]tuple{…}`); asked before an expression is refused; nil for the reader
+	exprExt func(p *gbPrinter, sc *gbScope, x ast.Expr) (string, bool)
 }
 
 func (p *gbPrinter) refuse(n ast.Node, format string, a ...interface{}) {
@@ -349,6 +352,11 @@ func (p *gbPrinter) expr(sc *gbScope, x ast.Expr) string {
 		return fun + "(" + strings.Join(args, ", ") + ")"
 	case *ast.CompositeLit:
 		if n.Type == nil {
+			if p.exprExt != nil {
+				if t, ok := p.exprExt(p, sc, x); ok {
+					return t
+				}
+			}
 			p.refuse(x, "composite literal without a type")
 		}
 		_, isMap := n.Type.(*ast.MapType)
